@@ -109,8 +109,12 @@ impl FakeNode {
     }
 
     fn serve(&self, mut s: TcpStream) {
+        // a connection on which the node once fell silent stays silent (a hung peer does not recover by itself):
+        // requests that still arrive on it are counted and ignored, without using up the next scripted outcome
+        let mut hung = false;
         while let Some((id, query)) = read_frame(&mut s) {
             self.served.fetch_add(1, Ordering::SeqCst);
+            if hung { continue; }
             let mode = std::mem::replace(&mut *self.armed.lock().unwrap(), "success".to_string());
             let reply = |ec: ErrorCode, body: Value| {
                 let mut b = Message::builder().id(id).query_bytes(query.clone()).error_code(ec);
@@ -140,7 +144,7 @@ impl FakeNode {
                     let _ = s.shutdown(Shutdown::Both);
                     return;
                 }
-                "silent" => { /* never answer; keep reading */ }
+                "silent" => { hung = true; /* never answer; keep reading */ }
                 "malformed" => {
                     let _ = s.write_all(&[0xAB; 64]);
                 }
